@@ -1,5 +1,6 @@
 pub mod allocmc;
 pub mod c01;
+pub mod c02;
 pub mod c12;
 pub mod c13;
 pub mod c14;
@@ -18,6 +19,7 @@ use crate::common::{Ctx, Report};
 pub fn dispatch(p: &str, ctx: &Ctx) -> Option<Report> {
     Some(match p {
         "C01" => c01::run(ctx),
+        "C02" => c02::run(ctx),
         "C12" => c12::run(ctx),
         "C13" => c13::run(ctx),
         "C14" => c14::run(ctx),
